@@ -298,6 +298,9 @@ func (rp *RelyingParty) VerifyRegistrationCeremony(
 
 	// 16. Verify that the "alg" parameter in the credential public key in authData matches the alg attribute of one of
 	//     the items in options.pubKeyCredParams.
+	if authenticatorData.AttestedCredentialData == nil {
+		return nil, fmt.Errorf("missing attested credential data in authenticator data")
+	}
 	key, _, err := cose.UnmarshalPublicKey(authenticatorData.AttestedCredentialData.CredentialPublicKey)
 	if err != nil {
 		return nil, fmt.Errorf("invalid public key: %w", err)
